@@ -44,10 +44,13 @@ Flatten(ss) == IF ss = << >> THEN << >> ELSE Head(ss) \o Flatten(Tail(ss))
 \* transpose::transpose(input, output, width, height): output[x*height + y] = input[y*width + x]
 Transpose(x, width, height) == [i \in 1..(width * height) |-> x[((i - 1) % height) * width + ((i - 1) \div height) + 1]]
 
+\* TLC evaluates [i \in S |-> e] lazily, element by element and again on every application; concatenation with the empty
+\* sequence turns it into an explicit tuple once (a pure evaluation-strategy device, no effect on the meaning)
+Force(f) == f \o << >>
 ZeroSeq(n) == [i \in 1..n |-> CZero]
 InvOf(m) == PowMod(m % P, P - 2, P)                         \* 1/m in GF(p)
 
-NaiveDft(x, inv) == IF Len(x) = 0 THEN << >> ELSE Dft(x, Tw(1, Len(x), inv), P)
+NaiveDft(x, inv) == IF Len(x) = 0 THEN << >> ELSE Dft(x, Tw(1, Len(x), inv), P) \o << >>
 
 \* ----- Good-Thomas index maps, transcribed step by step ---------------------------------------
 \* reindex_input: destination index of every source element, in source order
@@ -106,8 +109,8 @@ BitRevTranspose(x, height, d) ==
 \* code is transcribed as the set of stores <<destination index, value>> it performs; Scatter rebuilds the
 \* buffer and marks a cell that is never written, or written with two different values, as poisoned.
 Poison == <<"poison">>
-Scatter(stores, n) == [o \in 1..n |-> LET m == {s \in stores : s[1] = o - 1} IN
-                                      IF Cardinality(m) = 1 THEN (CHOOSE s \in m : TRUE)[2] ELSE Poison]
+Scatter(stores, n) == Force([o \in 1..n |-> LET m == {s \in stores : s[1] = o - 1} IN
+                                            IF Cardinality(m) = 1 THEN (CHOOSE s \in m : TRUE)[2] ELSE Poison])
 StoresInRange(stores, n) == \A s \in stores : s[1] \in 0..(n - 1)
 
 \* perform_column_butterflies: R rows of L columns; column groups of W lanes plus one partial group.
@@ -116,8 +119,8 @@ AvxColumnStores(x, R, L, W, inv) ==
     LET n == R * L  q == L \div W  rem == L % W
         ntc == q + (IF rem > 0 THEN 1 ELSE 0)                       \* quotient + div_ceil(remainder, W)
         Group(base, cnt, twc) ==
-            LET out == [l \in 0..(cnt - 1) |-> NaiveDft([i \in 1..R |-> x[base + L * (i - 1) + l + 1]], inv)] IN
-            {<<base + L * i + l, IF i = 0 THEN out[l][1] ELSE CMul(Tw(i * (twc * W + l), n, inv), out[l][i + 1], P)>> :
+            LET out == Force([l1 \in 1..cnt |-> NaiveDft([i \in 1..R |-> x[base + L * (i - 1) + l1]], inv)]) IN
+            {<<base + L * i + l, IF i = 0 THEN out[l + 1][1] ELSE CMul(Tw(i * (twc * W + l), n, inv), out[l + 1][i + 1], P)>> :
                 i \in 0..(R - 1), l \in 0..(cnt - 1)}
     IN UNION {Group(c * W, W, c) : c \in 0..(q - 1)}
        \cup (IF rem > 0 THEN Group(q * W, rem, ntc - 1) ELSE {})      \* final_twiddle_chunk = last chunk of the table
@@ -160,8 +163,8 @@ AvxRadersScatter(src, n, W, gi) ==
 \* pairwise_complex_mul_conjugated: out[i] = conj(in[i]) * mult[i]; mult is stored in ceil(m/W) vectors, the remainder uses the LAST vector
 AvxPairwiseConjMul(a, mult, W) ==
     LET m == Len(a)  q == m \div W  rem == m % W  nv == (m + W - 1) \div W IN
-    [i \in 1..m |-> IF i <= q * W THEN CMul(CConj(a[i], P), mult[i], P)
-                    ELSE CMul(CConj(a[i], P), mult[(nv - 1) * W + (i - q * W)], P)]
+    Force([i \in 1..m |-> IF i <= q * W THEN CMul(CConj(a[i], P), mult[i], P)
+                          ELSE CMul(CConj(a[i], P), mult[(nv - 1) * W + (i - q * W)], P)])
 
 \* BluesteinsAvx: twiddle table padded with zeros to ceil(n/W) vectors; prepare = (#vectors - 1) full chunks + an
 \* unconditional remainder chunk of 1..W elements + zero fill of the rest of the inner buffer in whole vectors
@@ -267,6 +270,12 @@ Run(t, x, inv) ==
                 s1 == IF n = base THEN x ELSE BitRevTranspose(x, base, 4)
                 s2 == RunChunks(t.ch[1], s1, base, inv)
             IN Layers(s2, t.fs, base, inv)
+      [] t.k = "Radix3" ->
+            \* radix3.rs new_with_base(k, base): digit-reversed transpose (radix 3), base FFTs, then k radix-3 layers
+            LET base == t.ch[1].len
+                s1 == IF n = base THEN x ELSE BitRevTranspose(x, base, 3)
+                s2 == RunChunks(t.ch[1], s1, base, inv)
+            IN Layers(s2, t.fs, base, inv)
       [] t.k = "RadixN" ->
             LET base == t.ch[1].len
                 width == n \div base
@@ -287,35 +296,35 @@ Run(t, x, inv) ==
             LET m == n - 1  W == t.w
                 g == PrimRoot(n)  gi == ModInv(g, n)
                 \* constructor: twiddle_input = 1, then *= gi; kernel = conj(InnerFFT(twiddles / m)), stored in vectors
-                kin == [j \in 1..m |-> CScale(Tw(PowMod(gi, j - 1, n), n, inv), InvOf(m), P)]
-                kfft == Run(t.ch[1], kin, inv)
-                kern == [j \in 1..m |-> CConj(kfft[j], P)]
+                kin == Force([j \in 1..m |-> CScale(Tw(PowMod(gi, j - 1, n), n, inv), InvOf(m), P)])
+                kfft == Force(Run(t.ch[1], kin, inv))
+                kern == Force([j \in 1..m |-> CConj(kfft[j], P)])
                 stg == AvxRadersGather(x, W, g)
                 s1 == Scatter(stg, m)
-                s2 == Run(t.ch[1], s1, inv)
+                s2 == Force(Run(t.ch[1], s1, inv))
                 first == CAdd(x[1], s2[1], P)
                 \* conj(a) * conj(kernel) = conj(a * kernel)
                 s3 == AvxPairwiseConjMul(s2, kern, W)
                 s4 == [s3 EXCEPT ![1] = CAdd(s3[1], CConj(x[1], P), P)]
-                s5 == Run(t.ch[1], s4, inv)
+                s5 == Force(Run(t.ch[1], s4, inv))
                 src == <<x[1]>> \o s5                                  \* scratch2: [0] = first input, [1..] = inner result
                 sto == AvxRadersScatter(src, n, W, gi)
                 tail == Scatter(sto, m)
             IN [o \in 1..n |-> IF o = 1 THEN first ELSE tail[o - 1]]
       [] t.k = "AvxBluesteins" ->
             LET m == t.ch[1].len  W == t.w
-                tw == [i \in 1..n |-> Tw(((i - 1) * (i - 1)) % (2 * n), 2 * n, inv)]
+                tw == Force([i \in 1..n |-> Tw(((i - 1) * (i - 1)) % (2 * n), 2 * n, inv)])
                 \* constructor: fill_bluesteins_twiddles(opposite direction), scaled, mirrored to the end of the buffer
-                kin0 == [i \in 1..m |-> IF i <= n THEN CScale(CConj(tw[i], P), InvOf(m), P) ELSE CZero]
-                kin == [i \in 1..m |-> IF i <= n THEN kin0[i]
-                                       ELSE IF m - (i - 1) \in 1..(n - 1) THEN kin0[m - (i - 1) + 1] ELSE CZero]
-                mfft == Run(t.ch[1], kin, inv)
-                mult == [i \in 1..m |-> CConj(mfft[i], P)]                            \* stored pre-conjugated
+                kin0 == Force([i \in 1..m |-> IF i <= n THEN CScale(CConj(tw[i], P), InvOf(m), P) ELSE CZero])
+                kin == Force([i \in 1..m |-> IF i <= n THEN kin0[i]
+                                             ELSE IF m - (i - 1) \in 1..(n - 1) THEN kin0[m - (i - 1) + 1] ELSE CZero])
+                mfft == Force(Run(t.ch[1], kin, inv))
+                mult == Force([i \in 1..m |-> CConj(mfft[i], P)])                     \* stored pre-conjugated
                 st1 == AvxBluesteinPrepare(x, tw, m, W)
                 s1 == IF StoresInRange(st1, m) THEN Scatter(st1, m) ELSE [i \in 1..m |-> Poison]
-                s2 == Run(t.ch[1], s1, inv)
-                s3 == [i \in 1..m |-> CMul(CConj(s2[i], P), mult[i], P)]
-                s4 == Run(t.ch[1], s3, inv)
+                s2 == Force(Run(t.ch[1], s1, inv))
+                s3 == Force([i \in 1..m |-> CMul(CConj(s2[i], P), mult[i], P)])
+                s4 == Force(Run(t.ch[1], s3, inv))
             IN Scatter(AvxBluesteinFinalize(s4, tw, n, W), n)
 
 Impulse(n, j) == [i \in 1..n |-> IF i = j + 1 THEN COne ELSE CZero]
